@@ -111,6 +111,12 @@ theorem expandTilde_eq_posixTilde (env : Env) (name : List Char) (slash : Bool) 
   rw [h5']
   cases tildeText env name slash <;> simp
 
+theorem arithEval_den (env : Env) (src : List Char) : den (arithEval env src) = posixArith env src := by
+  unfold arithEval posixArith
+  cases Arith.evalStrG arithI false src env with
+  | error e => simp
+  | ok r => simp [Phrase.toFields]
+
 mutual
   theorem textUnit_den : ∀ (u : TextUnit) (env : Env) (ws : Bool),
       den (expandTextUnit env ws u) = posixTextUnit env ws u
@@ -119,6 +125,19 @@ mutual
     | .param p m, env, ws => by
       simp only [expandTextUnit, posixTextUnit]
       exact param_den m env ws p (resolve env p)
+    | .arith t, env, ws => by
+      simp only [expandTextUnit, posixTextUnit]
+      by_cases hn : t.isNil = true
+      · simp [hn, Phrase.oneEmptyField, Phrase.ifsJoin, joinBySep, List.intercalate, arithEval_den]
+      · simp only [hn, if_false, Bool.false_eq_true]
+        have ht := textGo_den t env true Phrase.zeroFields
+        have hz : Phrase.zeroFields.toFields = [] := rfl
+        rw [hz] at ht
+        rcases hx : expandTextGo env true Phrase.zeroFields t with ⟨env', r⟩
+        rw [hx] at ht
+        cases r with
+        | error e => simp only [den_error] at ht; simp [← ht]
+        | ok ph => simp only [den_ok] at ht; simp [← ht, ifsJoin_eq, arithEval_den]
 
   theorem param_den : ∀ (m : Modifier) (env : Env) (ws : Bool) (p : Param) (v : Option Value),
       den (expandParam env ws p v m) = posixParam env ws p v m
@@ -272,5 +291,45 @@ mutual
         simp only [← hu, ← hz]
         exact wordGo_den w env' ws (Phrase.zeroFields.append ph)
 end
+
+/-- the arithmetic unit in terms of `expand_text` of its content and the evaluator of C03 over the adapter -/
+theorem arith_unit (env env1 env2 : Env) (ws : Bool) (t : Text) (src : List Char) (v : Int)
+    (h1 : expandTextJoined env t = (env1, .ok src))
+    (h2 : Arith.evalStrG arithI false src env1 = .ok (v, env2)) :
+    expandTextUnit env ws (.arith t) = (env2, .ok (.field (toField (intChars v)))) := by
+  unfold expandTextJoined at h1
+  simp only [expandTextUnit]
+  rcases hx : (if t.isNil = true then (env, Except.ok Phrase.oneEmptyField)
+      else expandTextGo env true Phrase.zeroFields t) with ⟨e', r⟩
+  rw [hx] at h1
+  cases r with
+  | error e => simp at h1
+  | ok ph =>
+    simp only [Prod.mk.injEq, Except.ok.injEq] at h1
+    obtain ⟨he, hs⟩ := h1
+    subst he
+    simp only [hs, arithEval, h2]
+
+theorem parseTildeGo_no_colon (us : List WordUnit) (h : ∀ u ∈ us, isColonUnit u = false) :
+    ∀ (name : List Char) (count : Nat), parseTildeGo true us name count = parseTildeGo false us name count := by
+  induction us with
+  | nil => intro name count; rfl
+  | cons u rest ih =>
+    intro name count
+    have hu := h u (by simp)
+    have hr := ih (fun v hv => h v (by simp [hv]))
+    cases u with
+    | unq t =>
+      cases t with
+      | lit c =>
+        have hc : c ≠ ':' := by intro hc; subst hc; simp [isColonUnit] at hu
+        simp [parseTildeGo, hc, hr]
+      | bs c => rfl
+      | param p m => rfl
+      | arith t => rfl
+    | sq s => rfl
+    | dsq s => rfl
+    | dq t => rfl
+    | tilde n sl => rfl
 
 end YashModel.Expansion
